@@ -37,7 +37,7 @@ fn reserved_words() -> &'static BTreeSet<&'static str> {
         BTreeSet::from([
             "let", "module", "func", "out", "assert", "self", "import", "include", "as", "map",
             "filter", "reduce", "select", "not", "constraint", "convert", "fail", "NULL", "in", "is",
-            "TRACE",
+            "TRACE", "env",
         ])
     });
     &WORDS
